@@ -178,6 +178,7 @@ class FakeTransport(asyncio.Transport):
         self.kind = kind
         self.closing = False
         self.lost = False
+        self.peer_gone = False       # the peer has closed its side: what is written from now on reaches nobody
         self.id = next(FakeTransport._ids)
         self.loop_closed_check = True
 
@@ -215,7 +216,8 @@ class FakeTransport(asyncio.Transport):
             self.loop.rec("SENDDROP", tr=self.id)
             return
         self.loop.rec("SEND", tr=self.id, data=bytes(data))
-        self.loop.peer(self, bytes(data))
+        if not self.peer_gone:
+            self.loop.peer(self, bytes(data))
 
     # -- environment side -----------------------------------------------------------------
     def deliver(self, data: bytes, delay: int = 0, kind: str = ""):
@@ -236,6 +238,7 @@ class FakeTransport(asyncio.Transport):
             if self.closing:
                 return
             self.loop.rec("PEERCLOSE", tr=self.id, err=getattr(exc, "errno", None) if exc else None, eof=eof)
+            self.peer_gone = True
             if eof and self.kind == "tcp":
                 # stock loop: eof_received(); falsy result -> transport.close()
                 keep_open = self.protocol.eof_received()
